@@ -322,7 +322,9 @@ func (self *linkedPairs) Get(key string) (*Pair, int) {
 		i, ok := self.index[caching.StrHash(key)]
 		if ok {
 			n := self.At(i)
-			if n.Key == key && (key != "" || n.Value.Exists()) {
+			/* the entry may be stale: pairs cleared in place keep their entry,
+			 * and the slot may have been popped since */
+			if n != nil && n.Key == key && (key != "" || n.Value.Exists()) {
 				return n, i
 			}
 			// hash conflicts
